@@ -1,8 +1,61 @@
 import SLModel.Drv.Util
+import SLModel.Drv.Doc
+import SLModel.Core.DocValidate
 open Lean
 namespace SL.Drv.C15
+open SL.Drv SL.Drv.DocJ SL.Doc
 
-/-- stub: no model operations for C15 yet -/
-def handle (_req : Json) : Except String Json := .error "C15: not implemented"
+/-- `char::is_whitespace` (Unicode `White_Space`) — what `str::trim` removes -/
+def isWs (c : Char) : Bool :=
+  let n := c.toNat
+  (9 ≤ n && n ≤ 13) || n == 32 || n == 0x85 || n == 0xA0 || n == 0x1680 ||
+  (0x2000 ≤ n && n ≤ 0x200A) || n == 0x2028 || n == 0x2029 || n == 0x202F || n == 0x205F ||
+  n == 0x3000
+
+/-- `s.trim().is_empty()` -/
+def blank (s : String) : Bool := s.toList.all isWs
+
+/-- bytes of the compact JSON text of the stored projection (what `serde_json::to_vec` writes;
+differences in escaping/number formatting are a few bytes and only matter at the cap itself) -/
+def size (j : J String) : Nat := (fromJ j).compress.utf8ByteSize
+
+/-- `{"$repeat": x, "times": n}` stands for the string `x` repeated `n` times (the harness expands
+it the same way before it calls the real code) -/
+partial def expand (j : Json) : Json :=
+  match j with
+  | .arr a => .arr (a.map expand)
+  | .obj kv =>
+    match j.getObjVal? "$repeat", j.getObjVal? "times" with
+    | .ok (.str x), .ok (.num n) =>
+      let t := n.mantissa.toNat
+      match x.toList with
+      | [c] => .str ("".pushn c t)
+      | _ => .str ((List.range t).foldl (fun acc _ => acc ++ x) "")
+    | _, _ => Json.mkObj (kv.foldl (fun acc k v => (k, expand v) :: acc) [])
+  | x => x
+
+/-- `{"op":"verdict","schema":…,"doc":…,"cap":n}` →
+`{"add":b,"commit":b,"conforms":b,"benign":b,"unknown_top":b,"arr_in_arr":b,"leaves_typed":b,
+"size":n}` -/
+def handle (req : Json) : Except String Json := do
+  let op ← getStr req "op"
+  match op with
+  | "verdict" =>
+    let s := schemaOf (← req.getObjVal? "schema")
+    let d := toJ (expand (← req.getObjVal? "doc"))
+    let cap := getNatD req "cap" (32 * 1024 * 1024)
+    let (ut, aa, lt) := match d with
+      | .obj kv => (unknownTop s kv, arrInArrTop s kv, leavesTypedTop s kv)
+      | _ => (false, false, true)
+    return Json.mkObj [
+      ("add", validateAdd blank s d),
+      ("commit", collectOk blank size cap s d),
+      ("conforms", conforms blank s d),
+      ("benign", benign size cap s d),
+      ("unknown_top", ut),
+      ("arr_in_arr", aa),
+      ("leaves_typed", lt),
+      ("size", size (project s d))]
+  | _ => throw s!"C15: unknown op {op}"
 
 end SL.Drv.C15
